@@ -16,6 +16,11 @@ func init() {
 		&slip.FuncDoc{
 			Name: "char<",
 			Args: []*slip.DocArg{
+				{
+					Name: "character",
+					Type: "character",
+					Text: "The first character to compare.",
+				},
 				{Name: "&rest"},
 				{
 					Name: "characters",
